@@ -57,6 +57,7 @@ inductive Expr where
   | sub (e k : Expr)                        -- `e[k]`
   | listComp (elt : Expr) (x : Nat) (iter : Expr) (conds : List Expr)
   | setComp (elt : Expr) (x : Nat) (iter : Expr)
+  | genExp (elt : Expr) (x : Nat) (iter : Expr)     -- `(elt for x in iter)`
   | opaque (src : String)                   -- outside the subset: `stuck` when evaluated
 
 inductive Stmt where
